@@ -457,10 +457,10 @@ theorem intOfOctets_intOctets (r : IntRepr) (z : Int) (hz : -(2 ^ 63) ≤ z ∧ 
   | long => simp only [intOfOctets, Asn1c.Proofs.L2Der.twosVal_intOctets]; rw [if_pos hz]
   | ulong =>
     have h0 := hr rfl
-    obtain ⟨b, bs, he, _, _, hv, _⟩ := Asn1c.Proofs.L2Der.natOctets_props z.toNat
+    obtain ⟨b, bs, he, hb, _, hv, _⟩ := Asn1c.Proofs.L2Der.natOctets_props z.toNat
     have : intOctets z = b :: bs := by unfold intOctets; rw [if_pos (by omega), he]
     simp only [intOfOctets, this, hv]
-    rw [if_pos (by omega)]
+    rw [if_neg (by omega), if_pos (by omega)]
     congr 1; omega
 
 theorem intBody_intDec (r : IntRepr) (names : List Bytes) (vals : List Int) (z : Int)
